@@ -35,6 +35,7 @@ type c13SFile struct {
 	Codec   string
 	Results []vegeta.Result
 	Ext     string // file name extension; encodings are detected from the content, so it carries no meaning
+	Name    string `json:",omitempty"` // != "": the file's whole name (names are names: no character in them means anything to the commands)
 }
 
 var c13PctKeys = map[string]bool{"50th": true, "90th": true, "95th": true, "99th": true}
@@ -202,7 +203,11 @@ func runC13Split(c c13Split) error {
 	var files []string
 	var union []vegeta.Result
 	for i, f := range c.Files {
-		p, err := writeResults(dir, fmt.Sprintf("in%d%s", i, f.Ext), f.Codec, f.Results)
+		name := fmt.Sprintf("in%d%s", i, f.Ext)
+		if f.Name != "" {
+			name = f.Name
+		}
+		p, err := writeResults(dir, name, f.Codec, f.Results)
 		if err != nil {
 			return err
 		}
@@ -410,8 +415,18 @@ func TestC13Commands(t *testing.T) {
 				c.Files[i].Codec = c.Files[0].Codec
 			}
 		}
+		if nf >= 2 && rapid.IntRange(0, 3).Draw(t, "oddnames") == 0 {
+			// names that a shell pattern matcher would read as patterns matching their neighbours
+			names := rapid.SampledFrom([][]string{{"run[1].bin", "run1.bin", "run2.bin", "run[12].bin", "r*.bin", "run?.bin"}, {"a*", "ab", "a?", "abc", "a[b]", "a"},
+				{"res{1,2}.gob", "res1.gob", "res2.gob", "res~", "res 1.gob", "-res.gob"}}).Draw(t, "nameset")
+			for i := range c.Files {
+				c.Files[i].Name = names[i%len(names)]
+			}
+		}
 		c.To = rapid.SampledFrom([]string{"gob", "csv", "json"}).Draw(t, "to")
-		switch rapid.IntRange(0, 5).Draw(t, "type") {
+		switch rapid.IntRange(0, 6).Draw(t, "type") {
+		case 6: // bounds as given, even when they are not in increasing order: every record is still counted the same way wherever it is read from
+			c.Type = "hist[0,20ms,10ms,30ms,1s,500ms]"
 		case 0:
 			c.Type = "text"
 		case 1:
